@@ -10,9 +10,19 @@ import gen
 
 
 def build_pool(case):
-    from dyce import P
+    from dyce import H, P
 
+    if case.get("mixed"):
+        # the initializer form dyce "technically supports": bare outcomes mixed with (outcome, count) pairs.
+        # list.sort() raises TypeError on it and H falls back to natural_key, so the histogram's internal
+        # order need not be ascending
+        return P(*[H([C.dec_out(o) if c == 1 else (C.dec_out(o), c) for o, c in h]) for h in case["dice"]])
     return P(*[C.dec_h(h) for h in case["dice"]])
+
+
+def ascending(p):
+    """every die lists its outcomes in ascending order (the hypothesis DiceOK of the pool theorems)"""
+    return all(list(h.outcomes()) == sorted(h.outcomes()) for h in p)
 
 
 def pool_rank_table(p):
@@ -88,7 +98,7 @@ def shrink_pool_case(case):
 
 
 def describe(case):
-    return "P(%s)%s" % (
+    return ("mixed-initializer " if case.get("mixed") else "") + "P(%s)%s" % (
         ", ".join("H({%s})" % ", ".join("%s: %d" % (o.split(":", 1)[1], c) for o, c in h) for h in case["dice"]),
         "[" + ", ".join(str(w[1]) if w[0] == "i" else "slice(%s,%s,%s)" % tuple(w[1:4]) for w in case["which"]) + "]",
     )
